@@ -140,7 +140,7 @@ func checkInter(scen string, in In) verdict {
 			got = append(got, toPara(*p))
 		}
 		for _, w := range lr.keptW {
-			got = append(got, toPara(w.Paragraph))
+			got = append(got, toParaTyped(*w))
 		}
 		var signer *openpgp.Entity
 		if lr.pr != nil {
